@@ -902,7 +902,7 @@ func (x *Exec) callWrites(c *ssa.Call, seen map[*ssa.Function]bool) (map[string]
 		case "errors.New", "fmt.Errorf":
 			alloc()
 			for _, l := range e.leaves(types.Typ[types.String]) {
-				out["ErrMsg_"+l.Name] = e.fldSort(l.S)
+				out["Gh_errtext_"+l.Name] = e.fldSort(l.S)
 			}
 			return out, false
 		}
